@@ -67,6 +67,13 @@ theorem policy_step_is_trace_step (nodes : List (Tree κ)) (hi lo : Nat) (h : lo
     popTwice nodes hi lo = clusterStep nodes hi lo :=
   popTwice_eq_clusterStep nodes hi lo h
 
+/-- **The two models agree.** With a non-negative epsilon (the shipped sorters use 5e-10) the policy's loop is the trace model run on
+the pops the policy chose, so `argsort` with the policy inside is `argsort` for that merge trace - whatever the similarity measure answers. -/
+theorem policy_is_a_trace (sim : List (Tree κ) → Nat → Nat → Int) (eps : Int) (heps : 0 ≤ eps) (source : List κ) :
+    argsortPolicy sim eps source = argsort source (policyTrace sim eps source.length (source.map Tree.leaf)) := by
+  unfold argsortPolicy argsort
+  rw [clusterLoop_eq_cluster sim eps heps source.length (source.map Tree.leaf) (by simp)]
+
 -- non-vacuity: the recorded trace of a 5-item run, and an input with a repeated id
 example : argsort [10, 20, 30, 40, 50] [(4, 0), (3, 1), (2, 1), (1, 0)] = some [4, 0, 2, 3, 1] := by decide
 example : argsort [7, 7, 8] [(2, 1), (1, 0)] = some [2, 0, 1] := by decide
